@@ -602,7 +602,7 @@ def run(tier, only=None):
         for l2 in (0, 1, 2):
             jobs.append(("iadd", (2, l1, l2)))
     for length in (0, 1, 2, 3):
-        for n in (1, 2, 3, 4):
+        for n in (0, 1, 2, 3, 4):
             jobs.append(("repeat", (2, length, n)))
     for length in (0, 1, 2, 3):
         for v in (False, True):
